@@ -184,3 +184,19 @@ Example C02_reachable_example :
     g_active (g_sh s) = true /\ mem 0 (g_store (g_sh s)) = true /\
     lookup 0 (g_cache (g_sh s)) = Some (CSize 0) /\ t_res (tget s 1) = [RBool true; ROk].
 Proof. eexists. vm_compute. repeat split. Qed.
+
+(** The linearizability decision used on executed schedules, on two histories:
+    the one of finding C02-1 (Put(0) pending over [1,9]; Has(0)=true over [4,6];
+    Has(0)=false at [8,8]) is rejected; with the answers in the other order it is
+    accepted (the Put linearizes between them). *)
+Example C02_lin_rejects :
+  linearizable sz0 [] [mkH (OPut 0 false) ROk 1 9; mkH (ORead KHas 0) (RBool true) 4 6;
+                       mkH (ORead KHas 0) (RBool false) 8 8] = false.
+Proof. vm_compute. reflexivity. Qed.
+
+Example C02_lin_accepts :
+  linearizable sz0 [] [mkH (OPut 0 false) ROk 1 9; mkH (ORead KHas 0) (RBool false) 4 6;
+                       mkH (ORead KHas 0) (RBool true) 8 8;
+                       mkH (ODelete 0 false) ROk 10 12; mkH (OPut 0 false) ROk 11 14;
+                       mkH (ORead KGetSize 0) (RSize 0) 13 13] = true.
+Proof. vm_compute. reflexivity. Qed.
